@@ -258,4 +258,68 @@ theorem topologicalSort_total (g0 : Graph α) (cc : Bool) :
     subst hrest
     simp [hl]
 
+theorem succs_mem_keys {g : Graph α} {a b : α} (h : b ∈ succs g a) : a ∈ keys g := by
+  unfold succs at h
+  split at h
+  · rename_i p hp
+    have hm := List.mem_of_find?_eq_some hp
+    have hk := List.find?_some hp
+    simp only [keys, List.mem_map]
+    exact ⟨p, hm, by simpa using hk⟩
+  · simp at h
+
+/-- **`checkCycles` characterised exactly**: `topologicalSort` ends in the cycle report precisely when
+`checkCycles` is set and the graph has two different nodes that reach one another. -/
+theorem topologicalSort_cycle_iff (g0 : Graph α) (cc : Bool) :
+    topologicalSort g0 cc = .cycle ↔
+      (cc = true ∧ ∃ a b, a ≠ b ∧ Path (normalise g0) a b ∧ Path (normalise g0) b a) := by
+  constructor
+  · intro h
+    have hcl : ∀ a b, b ∈ succs (normalise g0) a → b ∈ keys (normalise g0) := succs_normalise_closed g0
+    obtain ⟨R, hR⟩ := Option.isSome_iff_exists.mp (reachTable_some _ hcl)
+    unfold topologicalSort at h
+    simp only [hR] at h
+    split at h
+    · rename_i hcc
+      simp only [Bool.and_eq_true, List.any_eq_true, decide_eq_true_eq] at hcc
+      obtain ⟨hc, c, hck, hlen⟩ := hcc
+      refine ⟨hc, ?_⟩
+      rw [keys_condense] at hck
+      obtain ⟨a, ha, rfl⟩ := mem_components.mp hck
+      have hnd : (sccOf R (keys (normalise g0)) a).Nodup := by
+        unfold sccOf; exact List.Pairwise.filter _ (keys_normalise_nodup g0)
+      match hl : sccOf R (keys (normalise g0)) a, hnd, hlen with
+      | x :: y :: rest, hnd', _ =>
+        have hx : x ∈ sccOf R (keys (normalise g0)) a := by rw [hl]; simp
+        have hy : y ∈ sccOf R (keys (normalise g0)) a := by rw [hl]; simp
+        have hxy : x ≠ y := by
+          intro he; subst he
+          simp at hnd'
+        obtain ⟨_, hax, hxa⟩ := (mem_sccOf hR ha).mp hx
+        obtain ⟨_, hay, hya⟩ := (mem_sccOf hR ha).mp hy
+        exact ⟨x, y, hxy, hxa.trans hay, hya.trans hax⟩
+      | [_], _, hlen' => simp at hlen'
+      | [], _, hlen' => simp at hlen'
+    · exfalso
+      have hfuel := layers_fuel ((condense (normalise g0) R).length + 1) (condense (normalise g0) R) (Nat.lt_succ_self _)
+      obtain ⟨⟨ls, rest⟩, hl⟩ := Option.isSome_iff_exists.mp hfuel
+      have hrest : rest = [] :=
+        layers_rest_nil _ _ _ _ (condense_closed _ R hcl hR) (condense_ranked _ R hcl hR) hl
+      subst hrest
+      simp [hl] at h
+  · rintro ⟨hcc, a, b, hne, hab, hba⟩
+    rcases topologicalSort_total g0 cc with ⟨ls, hls⟩ | ⟨_, h⟩
+    · exfalso
+      obtain ⟨_, _, _, _, hcyc⟩ := topologicalSort_ok hls
+      have hka : a ∈ keys (normalise g0) := by
+        cases hab with
+        | refl => exact absurd rfl hne
+        | step h1 _ => exact succs_mem_keys h1
+      have hkb : b ∈ keys (normalise g0) := by
+        cases hba with
+        | refl => exact absurd rfl hne
+        | step h1 _ => exact succs_mem_keys h1
+      exact hne (hcyc hcc a hka b hkb hab hba)
+    · exact h
+
 end EupsModel.Topo
